@@ -81,23 +81,24 @@ type lockProc struct {
 }
 
 type lockSys struct {
-	mu       sync.Mutex
-	backing  kvs.Storage
-	mr       *miniredis.Miniredis
-	key      string
-	lockerOf []int // proc (1-based) -> locker
-	provOf   []int // locker (1-based) -> provider
-	provs    []dist.LockProvider
-	provDown []bool
-	lockers  []gsync.Locker
-	procs    []*lockProc
-	byGo     sync.Map // goroutine id -> proc id
-	events   []map[string]any
-	seq      int
-	faults   int
-	auto     bool // gates pass through (quiescence probes, ungated stress)
-	diverged bool
-	tick     chan struct{}
+	mu         sync.Mutex
+	backing    kvs.Storage
+	mr         *miniredis.Miniredis
+	key        string
+	lockerOf   []int // proc (1-based) -> locker
+	provOf     []int // locker (1-based) -> provider
+	provs      []dist.LockProvider
+	provDown   []bool
+	lockers    []gsync.Locker
+	procs      []*lockProc
+	byGo       sync.Map // goroutine id -> proc id
+	events     []map[string]any
+	seq        int
+	faults     int
+	auto       bool // gates pass through (quiescence probes, ungated stress)
+	gateWrites bool // directed scenarios: writes the protocol model does not know park at a gate "Write"
+	diverged   bool
+	tick       chan struct{}
 }
 
 func (s *lockSys) ev(e map[string]any) {
@@ -190,8 +191,16 @@ func (f *lockFacade) WaitForVersionChange(ctx context.Context, key, ver string) 
 	return err
 }
 
-// the renewal path and everything else passes through ungated
+// the renewal path and everything else passes through ungated - except in the directed scenarios that set
+// gateWrites: there a write the protocol model does not know (Put / PutMany / CasByVersion issued by an acquiring or
+// releasing call) parks at a gate of its own ("Write"), so that the scenario can let things happen before it lands
+func (f *lockFacade) unexpectedWrite() {
+	if f.s.gateWrites {
+		f.arrive("Write")
+	}
+}
 func (f *lockFacade) CasByVersion(ctx context.Context, r kvs.Record) (kvs.Record, error) {
+	f.unexpectedWrite()
 	return f.s.backing.CasByVersion(ctx, r)
 }
 func (f *lockFacade) Get(ctx context.Context, key string) (kvs.Record, error) {
@@ -201,9 +210,11 @@ func (f *lockFacade) GetMany(ctx context.Context, keys ...string) ([]*kvs.Record
 	return f.s.backing.GetMany(ctx, keys...)
 }
 func (f *lockFacade) Put(ctx context.Context, r kvs.Record) (kvs.Record, error) {
+	f.unexpectedWrite()
 	return f.s.backing.Put(ctx, r)
 }
 func (f *lockFacade) PutMany(ctx context.Context, rs []kvs.Record) error {
+	f.unexpectedWrite()
 	return f.s.backing.PutMany(ctx, rs)
 }
 func (f *lockFacade) ListKeys(ctx context.Context, pattern string) (iterable.Iterator[string], error) {
@@ -827,6 +838,49 @@ func (s *lockSys) runRawStress(rnd *rand.Rand, acqs int) {
 	s.quiesce()
 }
 
+// runOrphan: p1 acquires and unlocks, the REQUEST of its Delete is lost: its record stays behind (nobody renews it).
+// p1 locks again through the same Locker and finds its own old record.  Whatever it does about that: if it issues a
+// write the protocol does not know (a take-over), the write is held back while the orphan's lease runs out and p2
+// acquires; then the write lands; then p3 tries.  Nobody may acquire while p2 holds.
+func (s *lockSys) runOrphan(quiet time.Duration) {
+	s.gateWrites = true
+	s.mu.Lock()
+	s.ev(map[string]any{"e": "info", "what": "scenario", "name": "orphan"})
+	s.mu.Unlock()
+	s.exec(Step{"op": "start", "p": 1, "kind": "try"}, quiet)
+	s.exec(Step{"op": "grant", "p": 1, "call": "Create", "fault": "none"}, quiet)
+	s.exec(Step{"op": "unlock", "p": 1}, quiet)
+	s.exec(Step{"op": "grant", "p": 1, "call": "Delete", "fault": "reqlost"}, quiet)
+	s.exec(Step{"op": "start", "p": 1, "kind": "ctx"}, quiet)
+	s.exec(Step{"op": "grant", "p": 1, "call": "Create", "fault": "none"}, quiet) // ErrExist: its own orphan
+	parked := func() string {
+		s.mu.Lock()
+		defer s.mu.Unlock()
+		if g := s.procs[1].gate; g != nil {
+			return g.op
+		}
+		return ""
+	}
+	at := parked()
+	s.exec(Step{"op": "expire"}, quiet) // the orphan's lease runs out
+	s.exec(Step{"op": "start", "p": 2, "kind": "try"}, quiet)
+	s.exec(Step{"op": "grant", "p": 2, "call": "Create", "fault": "none"}, quiet) // p2 holds
+	if at == "Write" {
+		s.mu.Lock()
+		g := s.procs[1].gate
+		s.procs[1].gate = nil
+		s.mu.Unlock()
+		if g != nil {
+			g.release <- "none"
+		}
+		s.settle(true, quiet)
+	}
+	s.exec(Step{"op": "start", "p": 3, "kind": "try"}, quiet)
+	s.exec(Step{"op": "grant", "p": 3, "call": "Create", "fault": "none"}, quiet)
+	s.drain(quiet)
+	s.quiesce()
+}
+
 // ---- the C01 known finding: a release that reaches the store after the lease ran out --------
 
 // runLateDelete: p1 acquires and unlocks, its Delete is held at the gate while the lease of its
@@ -1015,6 +1069,14 @@ func driveLock(opt *Options) error {
 			flush(s, true)
 			s.close()
 		}
+	case "orphan":
+		s, err := newLockSys([]int{1, 2, 3}, []int{1, 2, 3}, opt.Variant, lease)
+		if err != nil {
+			return err
+		}
+		s.runOrphan(quiet)
+		flush(s, true)
+		s.close()
 	case "latedelete":
 		s, err := newLockSys([]int{1, 2, 3}, []int{1, 2, 3}, opt.Variant, lease)
 		if err != nil {
